@@ -34,6 +34,17 @@ impl<F> CustomErrorFn<F> {
     //@body CustomErrorFn::clone@Clone
 }
 pub struct ChaosConfig<E> { pub name: Name, pub error_injector: E, pub latency_rate: f64, pub min_latency: Duration, pub max_latency: Duration, pub seed: Option<u64>, pub event_listeners: EventListeners }
+/// rand::rngs::StdRng (ASSUMED): a generator is determined by how it was seeded — from a given u64 (reproducible) or from OS entropy
+pub struct StdRng { pub seeded: Ghost<Option<u64>> }
+impl StdRng {
+    #[verifier::external_body] pub fn seed_from_u64(seed: u64) -> (r: Self) ensures r.seeded@ == Some(seed) { unimplemented!() }
+    #[verifier::external_body] pub fn from_os_rng() -> (r: Self) ensures r.seeded@ is None { unimplemented!() }
+}
+impl<E> ChaosConfig<E> {
+    pub fn create_rng(&self) -> (r: StdRng)
+        ensures r.seeded@ == self.seed,   // #a_seeded_configuration_gets_the_generator_of_exactly_that_seed_an_unseeded_one_os_entropy [C19]
+    //@body ChaosConfig::create_rng
+}
 impl<E: VClone> ChaosConfig<E> {
     pub fn clone(&self) -> (r: Self)
         ensures r.seed == self.seed,   // #a_cloned_configuration_keeps_the_seed [C19]
